@@ -1,3 +1,90 @@
-From DI Require Import PyStr Package.
-Theorem C17_placeholder : True. Proof. exact I. Qed.
-Print Assumptions C17_placeholder.
+(* C17 - Package file names round-trip; latest-version selection is a maximum. *)
+From Coq Require Import String.
+From Coq Require Import NArith List Bool Permutation.
+From DI Require Import Result PyStr Version Dpkg VersionOrder Package SortFacts PackageFacts.
+Import ListNotations.
+Open Scope N_scope.
+
+(* name_version_arch.deb / .udeb with any directory prefix: exactly that name, an
+   equal version, that architecture, the original path *)
+Theorem C17_roundtrip_binary : forall d n v a ext ver,
+  dir_prefix d -> ~ In 95 n -> ~ In 47 n -> ~ In 95 v -> ~ In 47 v -> ~ In 95 a -> ~ In 47 a ->
+  (ext = lit "deb" \/ ext = lit "udeb") -> from_string v = Ok ver ->
+  let f := d ++ (n ++ [95] ++ v ++ [95] ++ a) ++ 46 :: ext in
+  deb_from_filename f = Ok (mkArchive n ver (Some a) f).
+Proof. exact roundtrip_binary. Qed.
+Print Assumptions C17_roundtrip_binary.
+
+Theorem C17_roundtrip_dsc : forall d n v ver,
+  dir_prefix d -> ~ In 95 n -> ~ In 47 n -> ~ In 95 v -> ~ In 47 v -> from_string v = Ok ver ->
+  let f := d ++ (n ++ [95] ++ v) ++ lit ".dsc" in
+  code_from_filename f = Ok (mkArchive n ver None f) /\ deb_from_filename f = Ok (mkArchive n ver None f).
+Proof. exact roundtrip_dsc. Qed.
+Print Assumptions C17_roundtrip_dsc.
+
+Theorem C17_roundtrip_metadata : forall d n v suffix ver,
+  dir_prefix d -> ~ In 95 n -> ~ In 47 n -> ~ In 95 v -> ~ In 47 v ->
+  (suffix = lit "copyright" \/ suffix = lit "changelog") -> from_string v = Ok ver ->
+  let f := d ++ (n ++ [95] ++ v) ++ 95 :: suffix in
+  code_from_filename f = Ok (mkArchive n ver None f).
+Proof. exact roundtrip_metadata. Qed.
+Print Assumptions C17_roundtrip_metadata.
+
+Theorem C17_roundtrip_tarball : forall d n v kind comp ver,
+  dir_prefix d -> ~ In 95 n -> ~ In 47 n -> ~ In 95 v -> ~ In 47 v ->
+  (kind = lit "orig" \/ kind = lit "debian") ->
+  (comp = lit "gz" \/ comp = lit "xz" \/ comp = lit "bz2" \/ comp = lit "lzma") ->
+  from_string v = Ok ver ->
+  let f := d ++ ((n ++ [95] ++ v) ++ 46 :: kind) ++ (lit ".tar" ++ [46]) ++ comp in
+  code_from_filename f = Ok (mkArchive n ver None f).
+Proof. exact roundtrip_tarball. Qed.
+Print Assumptions C17_roundtrip_tarball.
+
+(* every rejection is a ValueError *)
+Theorem C17_reject_is_ValueError : forall f e,
+  (deb_from_filename f = Raise e \/ code_from_filename f = Raise e) -> e = ValueError.
+Proof. exact from_filename_raise. Qed.
+Print Assumptions C17_reject_is_ValueError.
+
+(* acceptance implies two or three underscore-separated parts and a valid version part *)
+Theorem C17_accept_only_wellformed : forall f a,
+  deb_from_filename f = Ok a ->
+  a_file a = f /\
+  exists stem evr,
+    (split_char 95 stem = [a_name a; evr] /\ a_arch a = None \/
+     exists arch, split_char 95 stem = [a_name a; evr; arch] /\ a_arch a = Some arch) /\
+    from_string evr = Ok (a_version a).
+Proof. exact from_filename_ok. Qed.
+Print Assumptions C17_accept_only_wellformed.
+
+(* the model of list.sort returns a permutation that is non-decreasing in any class order the
+   comparison is compatible with on the elements being sorted *)
+Theorem C17_sort_spec : forall (A K : Type) (lt : A -> A -> result bool) (key : A -> K)
+  (cmpK : K -> K -> comparison), OrderFacts.CmpOK cmpK -> forall (P : A -> Prop),
+  (forall x y b, P x -> P y -> lt x y = Ok b ->
+     (cmpK (key x) (key y) = Lt -> b = true) /\ (cmpK (key x) (key y) = Gt -> b = false)) ->
+  forall l r, Forall P l -> py_sort lt l = Ok r -> sortedK key cmpK r /\ Permutation l r.
+Proof. exact @py_sort_spec. Qed.
+Print Assumptions C17_sort_spec.
+
+(* packages of one name: the selected one is an input and no input has a later version (dpkg order) *)
+Theorem C17_latest_is_maximum : forall name ps res,
+  ps <> [] -> Forall (same name) ps ->
+  find_latest_version_archives ps = Ok res ->
+  exists p, res = Some p /\ In p ps /\
+            forall q, In q ps -> vcmp (a_version q) (a_version p) <> Gt.
+Proof. exact latest_is_maximum. Qed.
+Print Assumptions C17_latest_is_maximum.
+
+(* mixing names raises ValueError *)
+Theorem C17_mixed_names : forall ps sorted x y,
+  py_sort archive_lt ps = Ok sorted -> Permutation ps sorted ->
+  In x ps -> In y ps -> a_name x <> a_name y ->
+  find_latest_version_archives ps = Raise ValueError.
+Proof. exact mixed_names_raise. Qed.
+Print Assumptions C17_mixed_names.
+
+Example C17_nonvacuous :
+  exists a, find_latest_version [lit "d/p_1.0_all.deb"; lit "p_1:0.1_all.deb"; lit "p_1.00_amd64.deb"] = Ok (Some a) /\
+            a_file a = lit "p_1:0.1_all.deb".
+Proof. eexists. split; vm_compute; reflexivity. Qed.
